@@ -145,13 +145,25 @@ class Proof:
         inc = []
         for d in self.include_dirs:
             inc += ['-I', d]
+        # vacuity probe (every run): an assertion that MUST FAIL at the end of the harness.  If it is reported SUCCESS the end of
+        # the harness is unreachable -- contradictory requires / assumptions, or a harness that cuts every path -- and every
+        # other SUCCESS of this run would be vacuous: the run is then a tool error, not a pass.
+        cfile = self.cfile
+        res['vacuity_probe'] = 'not placed'
+        if getattr(self, 'vacuity_probe', True) and not getattr(self, 'no_unwinding_assertions', False) and not os.environ.get('VERIF_NO_PROBE'):
+            probed = _place_probe(open(self.cfile).read(), self.entry)
+            if probed:
+                cfile = base + '.probe.c'
+                with open(cfile, 'w') as f:
+                    f.write(probed)
+                res['vacuity_probe'] = 'placed'
         if not os.environ.get('VERIF_NO_TYPECHECK'):
-            terr = typecheck(self.cfile, self.include_dirs, self.defines)
+            terr = typecheck(cfile, self.include_dirs, self.defines)
             if terr:
                 res['status'] = 'tool-error'
                 res['detail'] = 'generated C does not type-check strictly (lowering slip, not a verdict): ' + terr
                 return res
-        rc, out, err, dt = _run(['goto-cc', '--function', self.entry, '-DVERIF_CBMC'] + ['-D' + d for d in self.defines] + inc + [self.cfile, '-o', a], 300)
+        rc, out, err, dt = _run(['goto-cc', '--function', self.entry, '-DVERIF_CBMC'] + ['-D' + d for d in self.defines] + inc + [cfile, '-o', a], 300)
         if rc != 0:
             res['status'] = 'tool-error'
             res['detail'] = 'goto-cc failed: ' + (err or out)[-3000:]
@@ -245,6 +257,21 @@ class Proof:
             res['status'] = 'tool-error'
             res['detail'] = 'cbmc gave no verdict (rc=%s): %s' % (rc, ' | '.join(warnings)[-2000:] + err[-1000:])
             return res
+        probe = [o for o in obligations if '[vacuity-probe]' in (o.get('description') or '')]
+        if res.get('vacuity_probe') == 'placed':
+            if not probe:
+                res['vacuity_probe'] = 'lost'
+            elif all(o['status'] == 'SUCCESS' for o in probe):
+                res['status'] = 'tool-error'
+                res['detail'] = 'vacuous: the end of the harness is unreachable (the assertion that must fail was reported SUCCESS) -- contradictory requires/assumptions'
+                res['obligations'] = obligations
+                return res
+            else:
+                res['vacuity_probe'] = 'reachable'
+                obligations = [o for o in obligations if o not in probe]
+                res['obligations'] = obligations
+                if status == 'failure' and all(o['status'] == 'SUCCESS' for o in obligations):
+                    status = 'success'
         # vacuity / silent-drop guards
         bad = [w for w in warnings if re.search(r'ignoring|unsupported|not supported', w, re.I)]
         if bad:
@@ -266,6 +293,43 @@ class Proof:
         res['status'] = 'pass' if status == 'success' else 'fail'
         res['wall_s'] = round(time.time() - t0, 2)
         return res
+
+
+def _place_probe(text, entry):
+    """text with `__CPROVER_assert(0, "[vacuity-probe] ...")` inserted before the closing brace of function `entry`; None if
+    the definition cannot be located unambiguously"""
+    ms = list(re.finditer(r'\bvoid\s+' + re.escape(entry) + r'\s*\(\s*(void)?\s*\)\s*\{', text))
+    if len(ms) != 1:
+        return None
+    i = ms[0].end()
+    depth = 1
+    n = len(text)
+    in_str = None
+    while i < n and depth:
+        c = text[i]
+        if in_str:
+            if c == '\\':
+                i += 1
+            elif c == in_str:
+                in_str = None
+        elif c in '"\'':
+            in_str = c
+        elif c == '/' and text[i:i + 2] == '/*':
+            j = text.find('*/', i + 2)
+            i = (j + 1) if j >= 0 else n
+        elif c == '/' and text[i:i + 2] == '//':
+            j = text.find('\n', i)
+            i = j if j >= 0 else n
+        elif c == '{':
+            depth += 1
+        elif c == '}':
+            depth -= 1
+            if depth == 0:
+                break
+        i += 1
+    if depth != 0:
+        return None
+    return text[:i] + ' __CPROVER_assert(0, "[vacuity-probe] the end of the harness is reachable: this assertion must fail"); ' + text[i:]
 
 
 def get_trace(proof, prop_name, timeout=600):
